@@ -52,7 +52,7 @@ PROPS = {
                         "node.cpp start/stop, executor destructors and nested-node stop functions are not yet under contract"],
     },
     "C17": {
-        "modules": ["contracts.c17_executor", "contracts.c18_node_scheduler"],
+        "modules": ["contracts.c17_executor", "contracts.c18_node_scheduler", "contracts.c03_node"],
         "level": "proof",
         "design_ref": "DESIGN.md section 8, C17",
         "trusted_base": [
@@ -98,7 +98,7 @@ PROPS = {
                         "boundary binding correctness (nested_bindings.h) beyond bind_sampled_input_to_source"],
     },
     "C03": {
-        "modules": ["contracts.c03_node"],
+        "modules": ["contracts.c03_node", "contracts.c06_wiring", "contracts.c03_input_valid"],
         "level": "proof",
         "design_ref": "DESIGN.md section 8, C03",
         "trusted_base": [
